@@ -403,3 +403,50 @@ def compare(c, o, m):
 
 def nontrivial(c, o):
     return "err" not in o
+
+
+# ------------------------------------------------------------------ (G) barycentric coordinates traced from the source
+
+BARY_ARGS = ["a1", "a2", "a3", "b1", "b2", "b3", "c1", "c2", "c3", "p1", "p2", "p3"]
+
+
+def translate(ctx):
+    """`triangles.points_to_barycentric` (both methods) run on one symbolic triangle and point: each coordinate is a
+    rational function; numerators and denominators are printed for Lean"""
+    import numpy as real_np
+    from translate.poly import NPProxy, Poly, RF, sym_array, Branch
+    import trimesh.triangles as T
+    saved = T.np
+    T.np = NPProxy()
+    out = {}
+    try:
+        tri = sym_array(BARY_ARGS[:9], (1, 3, 3))
+        pt = sym_array(BARY_ARGS[9:], (1, 3))
+        for method in ("cramer", "cross"):
+            o = real_np.asarray(T.points_to_barycentric(tri, pt, method=method), dtype=object)[0]
+            if not all(isinstance(x, RF) for x in o[1:]):
+                raise common.Broken("translate", f"points_to_barycentric({method}) no longer divides by one denominator")
+            if not (o[1].d == o[2].d):
+                raise common.Broken("translate", f"points_to_barycentric({method}): the two weights have different denominators")
+            first = RF.lift(o[0]) if hasattr(RF, "lift") else o[0]
+            out[method] = (o[1].n, o[2].n, o[1].d, o[0])
+    except Branch as b:
+        raise common.Broken("translate", "points_to_barycentric is no longer straight-line: " + str(b))
+    finally:
+        T.np = saved
+    args = " ".join(BARY_ARGS)
+    L = ["-- GENERATED by harness/props/C12.py: symbolic trace of /repo/trimesh/triangles.py::points_to_barycentric -- do not edit",
+         "import Mathlib.Algebra.Field.Basic", "namespace TV.Generated.C12", "variable {K : Type} [Field K]", ""]
+    for method, (n1, n2, d, w0) in out.items():
+        L.append(f"/-- numerator of the weight of corner b ({method} method) -/")
+        L.append(f"def {method}Num1 ({args} : K) : K :=\n  {n1.lean()}\n")
+        L.append(f"/-- numerator of the weight of corner c ({method} method) -/")
+        L.append(f"def {method}Num2 ({args} : K) : K :=\n  {n2.lean()}\n")
+        L.append(f"/-- common denominator ({method} method) -/")
+        L.append(f"def {method}Den ({args} : K) : K :=\n  {d.lean()}\n")
+    L.append("end TV.Generated.C12")
+    return {"C12Bary.lean": "\n".join(L) + "\n"}
+
+
+def generated_obligations():
+    return 2
